@@ -54,6 +54,58 @@ EvRowDist(e) ==
   XFail("row_distribution", e.dist = d)
   \cup XFail("row_stretch_int", e.stretch_int = Cardinality({ k \in DOMAIN d : d[k][2] # 0 }) - (d[Len(d)][1] - d[1][1]) - 1)
 
+(* ---- row_stretch: combinations of the columns a row mentions per value spot of the row, as a fraction ------------- *)
+EvRowStretch(e) ==
+  XFail("row_stretch", /\ Len(e.stretch) = Len(e.rows)
+                       /\ \A i \in DOMAIN e.rows : LET n == NCombFormula(e.rows[i], e.cols)
+                                                        d == RowUb(e.rows[i], e.cols) - RowLb(e.rows[i], e.cols) + 1
+                                                    IN e.stretch[i][1] * d = e.stretch[i][2] * n)
+
+(* ---- neglect_columns: fix the neglected columns at 1 and fold them into the support vector ------------------------- *)
+NeglectRow(r, mask) == [ b |-> r.b - SumSeq([ j \in DOMAIN r.a |-> IF mask[j] > 0 THEN r.a[j] ELSE 0 ]),
+                         a |-> [ j \in DOMAIN r.a |-> IF mask[j] > 0 THEN 0 ELSE r.a[j] ] ]
+Neglect(rows, mask) == [ i \in DOMAIN rows |-> NeglectRow(rows[i], mask) ]
+\* what the operation means: a point satisfies the result iff the point with every neglected column set to 1 satisfies the original
+NeglectMeaning(rows, mask, x) ==
+  (\A i \in DOMAIN rows : RowOk(NeglectRow(rows[i], mask), x)) <=> (\A i \in DOMAIN rows : RowOk(rows[i], [ j \in DOMAIN x |-> IF mask[j] > 0 THEN 1 ELSE x[j] ]))
+EvNeglect(e) ==
+  XFail("neglect_exact", e.res = Neglect(e.rows, e.mask))
+  \cup XFail("neglect_meaning", Len(e.res) = Len(e.rows) => \A x \in PBox(e.cols) :
+                 (\A i \in DOMAIN e.res : RowOk(e.res[i], x)) <=> (\A i \in DOMAIN e.rows : RowOk(e.rows[i], [ j \in DOMAIN x |-> IF e.mask[j] > 0 THEN 1 ELSE x[j] ])))
+  \* observation O11 (named deviation): an int64 receiver does not stay as it was, its neglected columns are zeroed too while its
+  \* support vector is not touched; a receiver of another dtype is converted first and stays. Nothing else may happen to it.
+  \cup XFail("neglect_receiver", e.recv_after = e.rows
+                                  \/ e.recv_after = [ i \in DOMAIN e.rows |-> [ b |-> e.rows[i].b, a |-> NeglectRow(e.rows[i], e.mask).a ] ])
+
+(* ---- neglectable_columns: the documented case analysis, transcribed -------------------------------------------------- *)
+PadTo(p, n) == [ j \in 1..n |-> IF j <= Len(p) THEN p[j] ELSE 0 ]
+Neglectable(A, n, pats) ==
+  LET P == [ k \in DOMAIN pats |-> PadTo(pats[k], n) ]
+      notIn == { j \in 1..n : \A k \in DOMAIN P : P[k][j] = 0 }                       \* columns outside every pattern: never neglected
+      B == [ i \in DOMAIN A |-> [ j \in 1..n |-> IF j \in notIn \/ A[i][j] = 0 THEN 0 ELSE 1 ] ]
+      missing == { k \in DOMAIN P : \A i \in DOMAIN B : B[i] # P[k] }                 \* patterns that are not rows of the polyhedron
+      common == { j \in 1..n : \A i \in DOMAIN B : B[i][j] = 1 }
+  IN IF missing = {} THEN [ j \in 1..n |-> IF j \in notIn THEN 0 ELSE 1 ]
+     ELSE IF ~ \E k \in missing : \A j \in common : P[k][j] = 1 THEN [ j \in 1..n |-> IF j \in common \cup notIn THEN 0 ELSE 1 ]
+     ELSE LET free == { j \in 1..n : (\A k \in missing : P[k][j] = 0) /\ j \notin notIn }
+              flag == \A i \in DOMAIN B : \E j \in free : B[i][j] # 0
+          IN [ j \in 1..n |-> IF flag /\ (\E k \in missing : P[k][j] # 0) THEN 1 ELSE 0 ]
+\* the three documented examples
+ASSUME Neglectable(<< <<-1,-1,0,0,0,1>>, <<-1,0,-1,0,0,1>> >>, 6, << <<1,1,0>>, <<0,1,1>>, <<1,0,1>> >>) = <<0,1,1,0,0,0>>
+ASSUME Neglectable(<< <<-1,-1,0,0,0,1>>, <<-1,0,-1,0,0,1>> >>, 6, << <<1,1,0>>, <<1,0,1>>, <<1,0,0>> >>) = <<1,0,0,0,0,0>>
+ASSUME Neglectable(<< <<-1,-1,0,0,0,1>>, <<-1,0,-1,0,0,1>>, <<-1,0,0,0,0,1>> >>, 6, << <<1,1,0>>, <<1,0,1>>, <<1,0,0>> >>) = <<1,1,1,0,0,0>>
+EvNeglectable(e) ==
+  XFail("neglectable", e.res = Neglectable([ i \in DOMAIN e.rows |-> e.rows[i].a ], Len(e.cols), e.patterns))
+
+(* ---- to_text: one line per distinct node, the short form of the node, sorted ---------------------------------------- *)
+RECURSIVE BytesLeq(_, _)
+BytesLeq(x, y) == IF x = <<>> THEN TRUE ELSE IF y = <<>> THEN FALSE
+                  ELSE IF x[1] # y[1] THEN x[1] < y[1] ELSE BytesLeq(Tail(x), Tail(y))
+EvToText(e) ==
+  XFail("text_lines", { e.lines[i] : i \in DOMAIN e.lines } = { ShortOf(n) : n \in Flat(e.model) })
+  \cup XFail("text_no_repeats", Len(e.lines) = Cardinality({ e.lines[i] : i \in DOMAIN e.lines }))
+  \cup XFail("text_sorted", \A i \in 1..(Len(e.raw) - 1) : BytesLeq(e.raw[i], e.raw[i + 1]))
+
 (* ---- neighbourhoods of a vector ------------------------------------------------------------------------------------- *)
 Unit(n, j, d) == [ i \in 1..n |-> IF i = j THEN d ELSE 0 ]
 AddVec(x, y) == [ i \in DOMAIN x |-> x[i] + y[i] ]
@@ -100,7 +152,8 @@ EvCtor(e) ==
 EvSorted(e) == XFail("sorted_by_id", \A i \in 1..(Len(e.pos) - 1) : e.pos[i] <= e.pos[i + 1])
                \cup XFail("same_ids", { e.out[i] : i \in DOMAIN e.out } = { e.inp[i] : i \in DOMAIN e.inp } /\ Len(e.out) = Len(e.inp))
 
-ExtraOpNames == {"x_short", "x_reduced_poly", "x_row_dist", "x_neighbours", "x_bool_neighbours", "x_reduce2d", "x_or_get", "x_ctor", "x_sorted"}
+ExtraOpNames == {"x_short", "x_reduced_poly", "x_row_dist", "x_neighbours", "x_bool_neighbours", "x_reduce2d", "x_or_get", "x_ctor", "x_sorted",
+                 "x_row_stretch", "x_neglect", "x_neglectable", "x_to_text"}
 ExtraVerdict(e) ==
   CASE e.op = "x_short" -> EvShort(e)
     [] e.op = "x_reduced_poly" -> EvReducedPoly(e)
@@ -111,5 +164,9 @@ ExtraVerdict(e) ==
     [] e.op = "x_or_get" -> EvOrGet(e)
     [] e.op = "x_ctor" -> EvCtor(e)
     [] e.op = "x_sorted" -> EvSorted(e)
+    [] e.op = "x_row_stretch" -> EvRowStretch(e)
+    [] e.op = "x_neglect" -> EvNeglect(e)
+    [] e.op = "x_neglectable" -> EvNeglectable(e)
+    [] e.op = "x_to_text" -> EvToText(e)
     [] OTHER -> {"unknown_op"}
 =============================================================================
